@@ -23,6 +23,10 @@ var c02Workflows = map[string]string{
 	"merge-order.yml": "on: push\njobs:\n  j:\n    runs-on: ubuntu-latest\n    services:\n      s:\n        image: x\n    steps:\n      - run: |\n          echo ${{ (job.services || fromJSON('{\"p\":{\"x\":1},\"q\":{\"x\":\"s\"},\"r\":{\"x\":true}}')).foo.x.y }}\n      - run: |\n          echo ${{ (fromJSON('{\"a\":1,\"b\":\"s\",\"c\":true,\"d\":null}') || job.services).zz.y }}\n",
 	"undefined-many.yml": "on: push\njobs:\n  j:\n    runs-on: ubuntu-latest\n    strategy:\n      matrix:\n        a: [1]\n        b: [1]\n        c: [1]\n        exclude:\n          - x: 1\n            y: 2\n            z: 3\n    steps:\n      - run: echo ${{ nosuchvar }} ${{ nosuchfn() }}\n      - run: echo ${{ github.nosuch }}\n    permissions:\n      zz1: read\n      zz2: write\n",
 	"workflow-call.yml": "on: push\njobs:\n  c1:\n    uses: ./.github/workflows/reusable.yml\n  c2:\n    uses: ./.github/workflows/reusable.yml\n    with:\n      x1: 1\n      x2: 2\n    secrets:\n      y1: a\n      y2: b\n  l1:\n    runs-on: ubuntu-latest\n    steps:\n      - uses: ./.github/actions/local\n      - uses: ./.github/actions/local\n        with:\n          q1: 1\n          q2: 2\n",
+	// two files that reference the same defective local action / reusable workflow: the callee's own defect must show
+	// up at the same place in every run (the caches are filled by whichever file comes first)
+	"callee-defect-1.yml": "on: push\njobs:\n  j:\n    runs-on: ubuntu-latest\n    steps:\n      - uses: ./.github/actions/bad\n        id: s\n      - uses: ./.github/actions/broken\n  k:\n    uses: ./.github/workflows/badwf.yml\n",
+	"callee-defect-2.yml": "on: push\njobs:\n  j:\n    runs-on: ubuntu-latest\n    steps:\n      - uses: ./.github/actions/bad\n      - uses: ./.github/actions/broken\n  k:\n    uses: ./.github/workflows/badwf.yml\n  m:\n    uses: ./.github/workflows/missing.yml\n",
 	// candidates whose positions have an increasing line and a DECREASING column (flow style over several lines):
 	// the order "first by position" must still be a total order there
 	"staircase.yml": "on: push\njobs: {\n        aa: {needs: [bb], runs-on: ubuntu-latest, steps: [{run: echo}]},\n      bb: {needs: [aa], runs-on: ubuntu-latest, steps: [{run: echo}]},\n    cc: {needs: [dd], runs-on: ubuntu-latest, steps: [{run: echo}]},\n  dd: {needs: [cc], runs-on: ubuntu-latest, steps: [{run: echo}]},\n  l: {runs-on: [                 linux,\n          ubuntu-22.04,\n    windows-latest, macos-latest], steps: [{run: echo}]},\n  m: {strategy: {matrix: {include: [{os: linux}], os: [ubuntu-22.04], target: [windows-latest]}}, runs-on: [\"${{ matrix.os }}\", \"${{ matrix.target }}\"], steps: [{run: echo}]}\n}\n",
@@ -36,7 +40,7 @@ func runC02(c *ctx, r *Report) error {
 	if !c.quick {
 		reps = 400
 	}
-	r.Rule = fmt.Sprintf("8 workflows built so that every site where the code ranges over a Go map yields two or more diagnostics at one source position or several candidates (surplus format placeholders, missing required inputs of bundled / local actions and of a local reusable workflow incl. secrets, undefined inputs, runner-label conflicts with several conflicting labels, several needs cycles, Merge of object types with ≥ 3 properties, several undefined matrix keys / permission scopes / variables, candidates laid out with increasing line and decreasing column), in a scratch repository with a local action and a local reusable workflow; each file alone and all files in one LintFiles call are linted %d times by fresh linters under GOMAXPROCS ∈ {1,2,4,16}; output bytes (-oneline) and exit status must be identical in every repetition; non-trivial = distinct (file set, GOMAXPROCS) configurations that produce ≥ 2 diagnostics", reps)
+	r.Rule = fmt.Sprintf("10 workflows built so that every site where the code ranges over a Go map yields two or more diagnostics at one source position or several candidates (surplus format placeholders, missing required inputs of bundled / local actions and of a local reusable workflow incl. secrets, undefined inputs, runner-label conflicts with several conflicting labels, several needs cycles, Merge of object types with ≥ 3 properties, several undefined matrix keys / permission scopes / variables, candidates laid out with increasing line and decreasing column, two files sharing defective local callees), plus eight files of two repositories with different configurations alternating in one call, in a scratch repository with a local action and a local reusable workflow; each file alone and all files in one LintFiles call are linted %d times by fresh linters under GOMAXPROCS ∈ {1,2,4,16}; output bytes (-oneline) and exit status must be identical in every repetition; non-trivial = distinct (file set, GOMAXPROCS) configurations that produce ≥ 2 diagnostics", reps)
 	tmp, err := os.MkdirTemp("", "verif-c02-")
 	if err != nil {
 		return err
@@ -50,6 +54,11 @@ func runC02(c *ctx, r *Report) error {
 	os.MkdirAll(filepath.Join(root, ".github", "actions", "local"), 0o755)
 	os.WriteFile(filepath.Join(root, ".github", "actions", "local", "action.yml"), []byte(c02LocalAction), 0o644)
 	os.WriteFile(filepath.Join(wfdir, "reusable.yml"), []byte(c02Reusable), 0o644)
+	os.MkdirAll(filepath.Join(root, ".github", "actions", "bad"), 0o755)
+	os.MkdirAll(filepath.Join(root, ".github", "actions", "broken"), 0o755)
+	os.WriteFile(filepath.Join(root, ".github", "actions", "bad", "action.yml"), []byte("name: bad\nruns:\n  using: composite\n  steps:\n    - run: echo\n      shell: bash\n"), 0o644)
+	os.WriteFile(filepath.Join(root, ".github", "actions", "broken", "action.yml"), []byte("name: [unclosed\n"), 0o644)
+	os.WriteFile(filepath.Join(wfdir, "badwf.yml"), []byte("on:\n  workflow_call:\n    inputs: [a, b]\njobs: {}\n"), 0o644)
 	var names []string
 	for name, src := range c02Workflows {
 		os.WriteFile(filepath.Join(wfdir, name), []byte(src), 0o644)
@@ -68,7 +77,11 @@ func runC02(c *ctx, r *Report) error {
 		}
 		var paths []string
 		for _, f := range files {
-			paths = append(paths, filepath.Join(".github", "workflows", f))
+			if filepath.IsAbs(f) {
+				paths = append(paths, f)
+			} else {
+				paths = append(paths, filepath.Join(".github", "workflows", f))
+			}
 		}
 		errs, err := l.LintFiles(paths, nil)
 		if err != nil {
@@ -90,6 +103,25 @@ func runC02(c *ctx, r *Report) error {
 		rev[i], rev[j] = rev[j], rev[i]
 	}
 	sets = append(sets, rev)
+	// files of two repositories with different configurations, alternating on the command line: each file must be
+	// checked with its own repository's configuration in every run
+	{
+		var alt []string
+		for _, rp := range []struct{ repo, label string }{{"alpha", "runner-alpha"}, {"beta", "runner-beta"}} {
+			rr := filepath.Join(tmp, rp.repo)
+			os.MkdirAll(filepath.Join(rr, ".git"), 0o755)
+			os.MkdirAll(filepath.Join(rr, ".github", "workflows"), 0o755)
+			os.WriteFile(filepath.Join(rr, ".github", "actionlint.yaml"), []byte("self-hosted-runner:\n  labels: ["+rp.label+"]\n"), 0o644)
+			for i := 0; i < 4; i++ {
+				p := filepath.Join(rr, ".github", "workflows", fmt.Sprintf("w%d.yml", i))
+				os.WriteFile(p, []byte("on: push\njobs:\n  j:\n    runs-on: "+rp.label+"\n    steps:\n      - run: echo ${{ nosuch"+fmt.Sprint(i)+" }}\n"), 0o644)
+			}
+		}
+		for i := 0; i < 4; i++ {
+			alt = append(alt, filepath.Join(tmp, "alpha", ".github", "workflows", fmt.Sprintf("w%d.yml", i)), filepath.Join(tmp, "beta", ".github", "workflows", fmt.Sprintf("w%d.yml", i)))
+		}
+		sets = append(sets, alt)
+	}
 	for _, set := range sets {
 		var ref string
 		refSt := -1
@@ -135,8 +167,16 @@ func runC02(c *ctx, r *Report) error {
 					if len(set) > 1 {
 						key = "nondeterministic:multi-file"
 					}
+					// the same diagnostics, except that a callee's own defect (reported once per run) is attributed to a
+					// different one of the files that reference the callee
+					if len(set) > 1 && calleeCanon(out) == calleeCanon(ref) && st == refSt {
+						key = "nondeterministic:callee-defect-attribution"
+					}
 					r.finding(key, fmt.Sprintf("repetition %d (GOMAXPROCS=%d) differs from the first run: %s", i, procs, diff),
 						Case{Op: "lint-repeat", Input: map[string]string{"files": strings.Join(set, " "), "gomaxprocs": fmt.Sprint(procs)}, Impl: truncate(out, 3000), Model: truncate(ref, 3000)})
+					if key == "nondeterministic:callee-defect-attribution" {
+						continue // keep comparing the remaining repetitions: another difference must not hide behind this one
+					}
 					break
 				}
 			}
@@ -209,4 +249,28 @@ func sortStrings(s []string) {
 			s[j], s[j-1] = s[j-1], s[j]
 		}
 	}
+}
+
+// calleeCanon: the output with the lines that report a callee's own defect replaced by their message alone
+// (without file:line:col) and sorted to the end.
+func calleeCanon(out string) string {
+	var rest, callee []string
+	for _, l := range strings.Split(out, "\n") {
+		isCallee := false
+		for _, needle := range []string{"in metadata of ", "in action metadata ", "could not parse action metadata", "error while parsing reusable workflow", "could not read reusable workflow file", "in local action "} {
+			if strings.Contains(l, needle) {
+				isCallee = true
+			}
+		}
+		if isCallee {
+			if i := strings.Index(l, ": "); i >= 0 {
+				l = l[i+2:]
+			}
+			callee = append(callee, l)
+		} else {
+			rest = append(rest, l)
+		}
+	}
+	sortStrings(callee)
+	return strings.Join(rest, "\n") + "\n--callee--\n" + strings.Join(callee, "\n")
 }
